@@ -212,6 +212,19 @@ int fiber_io_unlock_thread() {
   return FIBER_SUCCESS;
 }
 
+// errno is thread-local, and a fiber that waits for an event can be resumed on a
+// different kernel thread. __errno_location() is declared 'const', so within
+// one function the compiler computes errno's address once and keeps using it
+// after fiber_wait_for_event() - i.e. it would test the errno of the thread
+// the fiber ran on *before* it was suspended. Keep the accesses that follow a
+// wait behind non-inlined calls so the address is looked up afresh.
+static __attribute__((noinline)) int fiber_io_would_block() {
+  const int e = errno;
+  return e == EWOULDBLOCK || e == EAGAIN;
+}
+
+static __attribute__((noinline)) void fiber_io_set_errno(int e) { errno = e; }
+
 static inline int should_block(int fd) {
   assert(fd >= 0);
   // wait only if the descriptor is one we manage (waitable) *and* the caller
@@ -291,7 +304,7 @@ int accept(ACCEPTPARAMS) {
   // keep waiting until a connection is actually obtained: the one announced by
   // the readiness event may have been taken by another fiber accepting on the
   // same socket in the meantime
-  while (sock < 0 && (errno == EWOULDBLOCK || errno == EAGAIN) &&
+  while (sock < 0 && fiber_io_would_block() &&
          should_block(sockfd)) {
     if (!fiber_wait_for_event(sockfd, FIBER_POLL_IN)) {
       return -1;
@@ -323,7 +336,7 @@ ssize_t read(int fd, void* buf, size_t count) {
       }
     }
     ret = fibershim_read(fd, buf, count);
-  } while (ret < 0 && (errno == EWOULDBLOCK || errno == EAGAIN) &&
+  } while (ret < 0 && fiber_io_would_block() &&
            should_block(fd));
 
   return ret;
@@ -342,7 +355,7 @@ ssize_t readv(int fd, const struct iovec* iov, int iovcnt) {
       }
     }
     ret = fibershim_readv(fd, iov, iovcnt);
-  } while (ret < 0 && (errno == EWOULDBLOCK || errno == EAGAIN) &&
+  } while (ret < 0 && fiber_io_would_block() &&
            should_block(fd));
 
   return ret;
@@ -361,7 +374,7 @@ ssize_t recv(int fd, void* buf, size_t len, int flags) {
       }
     }
     ret = fibershim_recv(fd, buf, len, flags);
-  } while (ret < 0 && (errno == EWOULDBLOCK || errno == EAGAIN) &&
+  } while (ret < 0 && fiber_io_would_block() &&
            !(flags & MSG_DONTWAIT) && should_block(fd));
 
   return ret;
@@ -380,7 +393,7 @@ ssize_t recvfrom(RECVFROMPARAMS) {
       }
     }
     ret = fibershim_recvfrom(sockfd, buf, len, flags, src_addr, addrlen);
-  } while (ret < 0 && (errno == EWOULDBLOCK || errno == EAGAIN) &&
+  } while (ret < 0 && fiber_io_would_block() &&
            !(flags & MSG_DONTWAIT) && should_block(sockfd));
 
   return ret;
@@ -399,7 +412,7 @@ ssize_t recvmsg(int sockfd, struct msghdr* msg, int flags) {
       }
     }
     ret = fibershim_recvmsg(sockfd, msg, flags);
-  } while (ret < 0 && (errno == EWOULDBLOCK || errno == EAGAIN) &&
+  } while (ret < 0 && fiber_io_would_block() &&
            !(flags & MSG_DONTWAIT) && should_block(sockfd));
 
   return ret;
@@ -411,7 +424,7 @@ ssize_t write(int fd, const void* buf, size_t count) {
   }
 
   int ret = fibershim_write(fd, buf, count);
-  while (ret < 0 && (errno == EWOULDBLOCK || errno == EAGAIN) &&
+  while (ret < 0 && fiber_io_would_block() &&
          should_block(fd)) {
     if (!fiber_wait_for_event(fd, FIBER_POLL_OUT)) {
       return -1;
@@ -428,7 +441,7 @@ ssize_t writev(int fd, const struct iovec* iov, int iovcnt) {
   }
 
   int ret = fibershim_writev(fd, iov, iovcnt);
-  while (ret < 0 && (errno == EWOULDBLOCK || errno == EAGAIN) &&
+  while (ret < 0 && fiber_io_would_block() &&
          should_block(fd)) {
     if (!fiber_wait_for_event(fd, FIBER_POLL_OUT)) {
       return -1;
@@ -445,7 +458,7 @@ ssize_t send(int sockfd, const void* buf, size_t len, int flags) {
   }
 
   ssize_t ret = fibershim_send(sockfd, buf, len, flags);
-  while (ret < 0 && (errno == EWOULDBLOCK || errno == EAGAIN) &&
+  while (ret < 0 && fiber_io_would_block() &&
          !(flags & MSG_DONTWAIT) && should_block(sockfd)) {
     if (!fiber_wait_for_event(sockfd, FIBER_POLL_OUT)) {
       return -1;
@@ -463,7 +476,7 @@ ssize_t sendto(int sockfd, const void* buf, size_t len, int flags,
   }
 
   ssize_t ret = fibershim_sendto(sockfd, buf, len, flags, dest_addr, addrlen);
-  while (ret < 0 && (errno == EWOULDBLOCK || errno == EAGAIN) &&
+  while (ret < 0 && fiber_io_would_block() &&
          !(flags & MSG_DONTWAIT) && should_block(sockfd)) {
     if (!fiber_wait_for_event(sockfd, FIBER_POLL_OUT)) {
       return -1;
@@ -480,7 +493,7 @@ ssize_t sendmsg(int sockfd, const struct msghdr* msg, int flags) {
   }
 
   ssize_t ret = fibershim_sendmsg(sockfd, msg, flags);
-  while (ret < 0 && (errno == EWOULDBLOCK || errno == EAGAIN) &&
+  while (ret < 0 && fiber_io_would_block() &&
          !(flags & MSG_DONTWAIT) && should_block(sockfd)) {
     if (!fiber_wait_for_event(sockfd, FIBER_POLL_OUT)) {
       return -1;
@@ -509,7 +522,7 @@ int connect(int sockfd, const struct sockaddr* addr, socklen_t addrlen) {
     }
 
     if (so_error) {
-      errno = so_error;
+      fiber_io_set_errno(so_error);
       return -1;
     }
 
